@@ -199,3 +199,52 @@ func vh_C19_equal() {
 	vAssert((sa.number == sb.number) == sameName, "numbers-equal-iff-names-equal")
 	vReach("equal")
 }
+
+// vh_C19_keys: two symbols with different names are different hash keys, and
+// one name is one key: however the hash table buckets its keys, the names
+// decide.  Names of 8 bytes, the last 6 symbolic letters (about 10^17 pairs): if bucketing or key comparison ever looks at anything coarser than
+// the interned identity - a checksum of the name, a prefix, the length - the
+// solver is asked for two names that agree on it.
+func vh_C19_keys() {
+	vFormatOpaque(true)
+	env := vEnvs(1)[0]
+	name := func(tag string) string {
+		// "qz" + 6 symbolic letters: no builtin starts like that, so
+		// interning does not fork on the existing table
+		b := []byte{'q', 'z', 0, 0, 0, 0, 0, 0}
+		for i := 2; i < len(b); i++ {
+			c := vUint8(tag)
+			vAssume(uint8(c-'a') < 26) // one comparison, no case split: a..z
+			b[i] = c
+		}
+		return string(b)
+	}
+	na, nb := name("x"), name("y")
+	sa, sb := env.MakeSymbol(na), env.MakeSymbol(nb)
+	sameName := na == nb
+	h, err := MakeHash(nil, "hash", env)
+	if err != nil {
+		vAssert(false, "hash-builds")
+		return
+	}
+	e1 := h.HashSet(sa, &SexpInt{Val: 1})
+	e2 := h.HashSet(sb, &SexpInt{Val: 2})
+	vAssert(e1 == nil && e2 == nil, "symbols-are-usable-as-keys")
+	if e1 != nil || e2 != nil {
+		return
+	}
+	va, ea := h.HashGet(env, sa)
+	vb, eb := h.HashGet(env, sb)
+	vAssert(ea == nil && eb == nil, "both-keys-found")
+	if ea != nil || eb != nil {
+		return
+	}
+	ia, oka := va.(*SexpInt)
+	ib, okb := vb.(*SexpInt)
+	if sameName {
+		vAssert(HashCountKeys(h) == 1 && oka && okb && ia.Val == 2 && ib.Val == 2, "one-name-is-one-key")
+	} else {
+		vAssert(HashCountKeys(h) == 2 && oka && okb && ia.Val == 1 && ib.Val == 2, "different-names-are-different-keys")
+	}
+	vReach("keys")
+}
